@@ -44,7 +44,7 @@ def cases(draw):
                    ["g", "G1 X%s Y%s" % (gen.fmt(tx), gen.fmt(ty))], ["g", "G11" if fw else "G1 E%s F1800" % gen.fmt(e)]]
         if not base["config"].get("ext") and draw(st.booleans()):
             base["config"]["ext"] = {"M106": draw(st.sampled_from(["merge", "first"])), "M117": draw(st.sampled_from(["first", "first", "last", "exclude"])),
-                                     "M204": draw(st.sampled_from(["last", "first"]))}
+                                     "M204": draw(st.sampled_from(["last", "first"])), "T": draw(st.sampled_from(["first", "last"]))}
         ext = sorted((base["config"].get("ext") or {}).keys())
         if ext and draw(st.integers(0, 3)) > 0:
             for code in draw(st.lists(st.sampled_from(ext), min_size=1, max_size=3)):
@@ -64,6 +64,8 @@ def cases(draw):
                 # a sub-coded command: the live hooks receive code and sub-code separately ("G91", "1")
                 lines.append(draw(st.sampled_from(["G91.1", "G90.1", "G28.1 X", "M204.1 S5", "G10.1", "G11.1", "G1.0 X3 Y3", "G92.1", "G20.1", "G21.1",
                                                    "M117.1 sub", "G38.2 Z-1", "G0.1 X2"])))
+                if draw(st.booleans()):
+                    lines.append(draw(st.sampled_from(["T1", "T0", "M117 after", "G4 P1"])))      # a code without sub-code right after it
             if draw(st.integers(0, 4)) == 0:
                 body = "N%d %s" % (n, body)
                 n += 1
@@ -245,6 +247,8 @@ def same(got, want, eol):
         ra, rb = gread.read(a), gread.read(b)
         if ra is None or rb is None or (ra.code, ra.sub, ra.words, ra.text) != (rb.code, rb.sub, rb.words, rb.text):
             return False
+        if ra.code.startswith("T"):
+            return False        # (a tool change has no other spelling: 'T1.1' is not 'T1')
     return True
 
 
